@@ -109,7 +109,10 @@
 use core::cell::Cell;
 use core::ptr;
 use core::sync::atomic::Ordering::*;
+#[cfg(not(arc_swap_verif))]
 use core::sync::atomic::{AtomicPtr, AtomicUsize};
+#[cfg(arc_swap_verif)]
+use crate::verif::{AtomicPtr, AtomicUsize};
 
 use super::Debt;
 use crate::RefCnt;
@@ -330,5 +333,24 @@ impl Slots {
             // someone provided the replacement *and* paid the debt and we need just one of them).
             Err(replacement)
         }
+    }
+}
+
+#[cfg(arc_swap_verif)]
+impl Local {
+    pub(super) fn verif_generation(&self) -> &Cell<usize> {
+        &self.generation
+    }
+}
+
+#[cfg(arc_swap_verif)]
+impl Slots {
+    pub(super) fn verif_layout(&self) -> (usize, alloc::vec::Vec<(&'static str, usize)>) {
+        let mut v = alloc::vec::Vec::new();
+        v.push(("control", &self.control as *const _ as usize));
+        v.push(("active_addr", &self.active_addr as *const _ as usize));
+        v.push(("handover", &self.handover.0 as *const _ as usize));
+        v.push(("space_offer", &self.space_offer as *const _ as usize));
+        (self.control.load(Relaxed), v)
     }
 }
